@@ -122,7 +122,7 @@ impl<'a> Decoder<'a> {
             STRING_TAG => {
                 let offset = jentry.length as usize;
                 let string = &self.buf.get(..offset).ok_or(Error::InvalidUtf8)?;
-                let s = unsafe { std::str::from_utf8_unchecked(string) };
+                let s = std::str::from_utf8(string).map_err(|_| Error::InvalidUtf8)?;
                 self.buf = &self.buf[offset..];
                 Ok(Value::String(Cow::Borrowed(s)))
             }
